@@ -13,7 +13,7 @@ Transcription map
 * `SetN2kPGN126996` / `SetN2kPGN126996Progmem`    → `productDataRam` / `productDataProgmem`
 * `SetN2kPGN126998` (`AddVarStr`, 7-bit strings)  → `configData` (`varStr`)
 * `SendProductInformation` / `SendConfigurationInformation` → `sendProductInformation` / `sendConfigurationInformation`
-* `Set/ClearPending…Information`, `SendPendingInformation` → `finishProd` / `finishConf`, `sendPendingInformation`
+* `Set/ClearPending…Information`, `SendPendingInformation` → `afterProd` / `afterConf` (`updateHasPending`), `sendPendingInformation` (`pendingDev`)
 * `HandleReceivedSystemMessage` (59904 case) + `ParseMessages` → `handleReceived`, `pollRq`
 
 The messages are handed to `Send.sendMsg` (the already modelled `SendMsg`), so the state threads through
@@ -23,8 +23,9 @@ device index it was called for) while it runs.
 
 Strings are C strings: a `List Nat` is the memory content, the string ends at the first 0 (`cstr`).
 `AddVarStr` is modelled for 7-bit strings (then `N2kRequireUnicode` is false); the UCS-2 path belongs to C16.
-`HasPendingInformation` is not a separate field: it is the disjunction of the timers being enabled, and a
-disabled timer is never due, so testing the timers alone is equivalent (no ISO-TP transfer, no delayed claim).
+`HasPendingInformation` is modelled as the flag it is (`DevX.hasPending`): set by `SetPending…`, recomputed from the
+timers by `Clear…` (`updateHasPending`), and guarding the device in `SendPendingInformation` (no ISO-TP transfer and
+no delayed address claim are pending in this model, their terms of the disjunction are false).
 -/
 namespace N2k.IsoRequest
 open N2k.Send N2k.Time
@@ -96,6 +97,7 @@ structure DevX where
   prod : Option Product := none      -- Devices[i].ProductInformation (null = `none`)
   pendProd : Sched                   -- PendingProductInformation
   pendConf : Sched                   -- PendingConfigurationInformation
+  hasPending : Bool := false         -- HasPendingInformation
 
 structure Node where
   st : St
@@ -173,29 +175,34 @@ def sendAll (n : Node) (i : Nat) : List Msg → Node × List OutMsg
 def andThen (a : Node × List OutMsg) (f : Node → Node × List OutMsg) : Node × List OutMsg :=
   ((f a.1).1, a.2 ++ (f a.1).2)
 
-def setPendProd (n : Node) (i : Nat) (v : Sched) : Node :=
+def updExt (n : Node) (i : Nat) (g : DevX → DevX) : Node :=
   match n.ext[i]? with
   | none => n
-  | some x => { n with ext := n.ext.set i { x with pendProd := v } }
+  | some x => { n with ext := n.ext.set i (g x) }
 
-def setPendConf (n : Node) (i : Nat) (v : Sched) : Node :=
-  match n.ext[i]? with
-  | none => n
-  | some x => { n with ext := n.ext.set i { x with pendConf := v } }
+/-- `UpdateHasPendingInformation()`: the flag is the disjunction of the timers being enabled
+(`PendingIsoAddressClaim` and `NextDTSendTime` are never armed here) -/
+def updateHasPending (f : Flavor) (x : DevX) : DevX :=
+  { x with hasPending := x.pendProd.isEnabled f || x.pendConf.isEnabled f }
 
-/-- tail of `SendProductInformation`: `if (SendMsg(…)) Clear… else SetPending…` (`187+N2kSource*8` ms) -/
+/-- the device's pending data after `SendProductInformation`'s `SendMsg`: `ClearPendingProductInformation()`
+(disable, recompute the flag) on success, `SetPendingProductInformation()` (`187+N2kSource*8` ms, flag set) otherwise -/
+def afterProd (s : St) (ok : Bool) (src : Nat) (x : DevX) : DevX :=
+  if ok then updateHasPending s.flavor { x with pendProd := Sched.disabled s.flavor }
+  else { x with pendProd := Sched.fromNow s.flavor s.now (187 + src * 8), hasPending := true }
+
+/-- the same for `SendConfigurationInformation` (`187+N2kSource*10` ms) -/
+def afterConf (s : St) (ok : Bool) (src : Nat) (x : DevX) : DevX :=
+  if ok then updateHasPending s.flavor { x with pendConf := Sched.disabled s.flavor }
+  else { x with pendConf := Sched.fromNow s.flavor s.now (187 + src * 10), hasPending := true }
+
+/-- tail of `SendProductInformation`: `if (SendMsg(…)) Clear… else SetPending…` -/
 def finishProd (n : Node) (i src : Nat) (m : Msg) : Node :=
-  let r := sendMsg n.st m (some i)
-  let n1 := { n with st := r.1 }
-  if r.2 then setPendProd n1 i (Sched.disabled n.st.flavor)
-  else setPendProd n1 i (Sched.fromNow n.st.flavor n.st.now (187 + src * 8))
+  updExt { n with st := (sendMsg n.st m (some i)).1 } i (afterProd n.st (sendMsg n.st m (some i)).2 src)
 
-/-- tail of `SendConfigurationInformation` (`187+N2kSource*10` ms) -/
+/-- tail of `SendConfigurationInformation` -/
 def finishConf (n : Node) (i src : Nat) (m : Msg) : Node :=
-  let r := sendMsg n.st m (some i)
-  let n1 := { n with st := r.1 }
-  if r.2 then setPendConf n1 i (Sched.disabled n.st.flavor)
-  else setPendConf n1 i (Sched.fromNow n.st.flavor n.st.now (187 + src * 10))
+  updExt { n with st := (sendMsg n.st m (some i)).1 } i (afterConf n.st (sendMsg n.st m (some i)).2 src)
 
 /-- the product information a device reports: its own, else the first device's -/
 def resolveProd (ext : List DevX) (i : Nat) : Option Product :=
@@ -281,15 +288,17 @@ def handleReceived (n : Node) (m : Msg) (h : Option Handler) : Node × List OutM
 
 /-! ## pending information -/
 
+/-- the body of the loop of `SendPendingInformation` for device `i`: guarded by `HasPendingInformation` -/
 def pendingDev (n : Node) (i : Nat) : Node × List OutMsg :=
-  andThen
-    (match n.ext[i]? with
-     | some x => if x.pendProd.isTime n.st.flavor n.st.now then sendProductInformation n i else (n, [])
-     | none => (n, []))
-    fun n1 =>
-      match n1.ext[i]? with
-      | some x => if x.pendConf.isTime n1.st.flavor n1.st.now then sendConfigurationInformation n1 i else (n1, [])
-      | none => (n1, [])
+  match n.ext[i]? with
+  | none => (n, [])
+  | some x =>
+    if x.hasPending then
+      andThen (if x.pendProd.isTime n.st.flavor n.st.now then sendProductInformation n i else (n, [])) fun n1 =>
+        match n1.ext[i]? with
+        | some x1 => if x1.pendConf.isTime n1.st.flavor n1.st.now then sendConfigurationInformation n1 i else (n1, [])
+        | none => (n1, [])
+    else (n, [])
 
 def pendingAll : List Nat → Node → Node × List OutMsg
   | [], n => (n, [])
